@@ -167,6 +167,28 @@ def mc_expect_violation(module, cfg, wd, name, timeout=600):
     return bad
 
 
+def tlaps(module, wd, timeout=600):
+    """TLAPS proof of a module of spec/proofs (unbounded complement of a bounded MC theorem).  The proofs do not depend on the code, so
+    the outcome is recorded in the evidence and never changes the verdict of a check."""
+    import shutil
+    d = os.path.join(wd, "tlaps_" + os.path.basename(module).replace(".tla", ""))
+    shutil.rmtree(d, ignore_errors=True)
+    os.makedirs(d)
+    shutil.copy(os.path.join(SPEC, module), d)
+    t = time.time()
+    try:
+        p = subprocess.run(["tlapm", "--threads", "4", os.path.basename(module)], cwd=d, stdout=subprocess.PIPE, stderr=subprocess.STDOUT, text=True, timeout=timeout)
+        out = p.stdout
+    except (subprocess.TimeoutExpired, OSError) as e:
+        out = "tlapm did not finish: %s" % e
+    m = re.search(r"All (\d+) obligations proved", out)
+    r = {"module": module, "proved": bool(m), "obligations": int(m.group(1)) if m else 0, "wall_s": round(time.time() - t, 1)}
+    if not m:
+        r["output_tail"] = out[-400:]
+    log("  TLAPS %-26s %s (%d obligations) %.1fs" % (os.path.basename(module), "all proved" if m else "NOT proved", r["obligations"], r["wall_s"]))
+    return r
+
+
 def printed(out, tag):
     """lines printed by PrintT(<<tag, "json">>) -> decoded json objects"""
     res = []
